@@ -1,6 +1,7 @@
 --------------------------- MODULE IntegrityTrace ---------------------------
-(* TV for C39.  The trace of harness/cmd/integrity is, per case,                      *)
+(* TV for C39.  The trace of harness/cmd/integrity is, per program and stack,         *)
 (*   Reset, <the API calls of the state-building program, as in PithosTrace>,         *)
+(* and then, per corruption case (each run on a fresh copy of the built state),       *)
 (*   Corrupt (the physical parts damaged: store, content, kind, number of files hit), *)
 (*   Validate (deleteCorrupted flag, the validator's error class, the failed / passed *)
 (*             / deleted object sets, its counters, and the views afterwards).        *)
@@ -119,7 +120,7 @@ IValidate ==
                 versioned |-> \E o \in rep : S.bver[o[1]] # "Unset"]
   IN
   /\ e.call.op = "Validate"
-  /\ PrintT(ToJson([l |-> l, prog |-> prog, what |-> "validate",
+  /\ PrintT(ToJson([l |-> l, prog |-> prog, case |-> e.case, what |-> "validate",
                     verdict |-> IF m = 0 THEN "mismatch" ELSE IF holds THEN "ok" ELSE "finding",
                     tags |-> IF m # 0 /\ ~holds THEN D ELSE {},
                     dev |-> D, del |-> e.call.del, stack |-> stack,
@@ -127,9 +128,9 @@ IValidate ==
                     report |-> rep, views_ok |-> LViewsX(a.s, stack, e.views) = MViewsX(a.s, stack),
                     model_views |-> IF m = 0 THEN MViewsX(a.s, stack) ELSE <<>>,
                     facts |-> facts]))
-  /\ S' = a.s /\ res' = NoRes /\ hist' = <<>>
+  \* every case runs on a fresh copy of the state the program built: S is not advanced
   /\ l' = l + 1
-  /\ UNCHANGED <<etags, mtimes, prog, taken, corr>>
+  /\ UNCHANGED <<S, res, hist, etags, mtimes, prog, taken, corr>>
 
 ITNext == l <= Len(Trace) /\ (IReset \/ ICall \/ ICorrupt \/ IValidate)
 =============================================================================
